@@ -14,11 +14,14 @@ import (
 	"strings"
 	"time"
 
+	"gitlab.com/aquachain/aquachain/aquadb"
 	"gitlab.com/aquachain/aquachain/common"
 	"gitlab.com/aquachain/aquachain/common/log"
 	"gitlab.com/aquachain/aquachain/consensus"
 	"gitlab.com/aquachain/aquachain/consensus/aquahash"
+	"gitlab.com/aquachain/aquachain/core"
 	"gitlab.com/aquachain/aquachain/core/types"
+	"gitlab.com/aquachain/aquachain/core/vm"
 	"gitlab.com/aquachain/aquachain/params"
 	"gitlab.com/aquachain/aquachain/verifharness/vh"
 )
@@ -426,6 +429,7 @@ func allConfigs(r *vh.RNG) []struct {
 	add("mainnet+hf8", customCfg(61717561, map[int]int64{1: 3600, 2: 7200, 3: 13026, 4: 21800, 5: 22800, 6: 36000, 7: 36050, 8: 40000, 9: 40100}))
 	add("hf10-main", customCfg(61717561, map[int]int64{1: 1, 2: 2, 3: 3, 5: 5, 6: 6, 8: 20, 10: 30}))
 	add("hf10-test", customCfg(777, map[int]int64{5: 0, 10: 12}))
+	add("hf10-then-hf8", customCfg(778, map[int]int64{5: 0, 10: 5, 8: 20}))
 	add("mainid-sparse", customCfg(61717561, map[int]int64{3: 10, 5: 20}))
 	for i := 0; i < 3; i++ {
 		m := map[int]int64{}
@@ -537,6 +541,202 @@ func (e *env) directed() {
 	}
 }
 
+// ---------------------------------------------------------------- 0b. every fork edge, deterministically
+
+// forkEdges: for every configuration and every scheduled fork f, the difficulty of blocks f-1, f, f+1 on a fixed set of
+// (parent difficulty, time delta, grandparent) points chosen so that the regimes on the two sides of the edge give
+// different values: delta 200 separates the duration limits 240/180, the large difficulties separate the divisors
+// 2048/16/128/1024, the difficulties at the minima with a late block separate the minima, and the fork block itself
+// separates "reset" from "adjust".  No sub-sampling: an IsHF test fed with the wrong height (parent instead of block)
+// changes at least one of these values.
+func (e *env) forkEdges() {
+	c := e.c
+	for _, nc := range allConfigs(c.Rng) {
+		cfg := nc.cfg
+		edges := map[int64]bool{}
+		for _, v := range cfg.HF {
+			if v != nil {
+				for d := int64(-1); d <= 1; d++ {
+					if v.Int64()+d >= 1 {
+						edges[v.Int64()+d] = true
+					}
+				}
+			}
+		}
+		hs := []int64{}
+		for h := range edges {
+			hs = append(hs, h)
+		}
+		sort.Slice(hs, func(i, j int) bool { return hs[i] < hs[j] })
+		for _, next := range hs {
+			for _, pd := range []int64{46039386, 99999999, 100001792, 30959185800, 1 << 40, 1<<40 + 12345} {
+				for _, dt := range []int64{1, 200, 1000} {
+					pt := int64(2000000)
+					p := baseHeader(c.Rng, cfg, next-1, pt, big.NewInt(pd), common.Hash{1}, 5000000)
+					var gp *types.Header
+					if next >= 2 {
+						gp = baseHeader(c.Rng, cfg, next-2, pt-300, big.NewInt(pd+777777), common.Hash{2}, 5000000)
+					}
+					e.checkDifficulty("edge/"+nc.name, cfg, uint64(pt+dt), p, gp)
+				}
+			}
+		}
+	}
+}
+
+// treeAt: a main chain ending at height-1 (at most 6 headers, from the genesis when the height is small), with a block
+// body for every header, and `n` otherwise valid uncles for a block at `height`: distinct siblings of the block's parent
+// (children of its grandparent), so that recency, ancestry, uniqueness and header validity all hold.
+func (e *env) treeAt(r *vh.RNG, cfg *params.ChainConfig, height int64, n int, now int64) (all []*types.Header, blocks map[int]*types.Block, hdr *types.Header, us []*types.Header) {
+	lo := height - 6
+	var base, seg []*types.Header
+	if lo <= 0 {
+		base, seg = buildChain(r, cfg, 1, int(height-1), now)
+	} else {
+		base, seg = buildChain(r, cfg, lo+2, int(height-lo-2), now)
+	}
+	all = append(append([]*types.Header{}, base...), seg...)
+	blocks = map[int]*types.Block{}
+	for k := 0; k < len(all); k++ {
+		blocks[k] = types.NewBlockWithHeader(all[k]).WithBody(nil, nil)
+	}
+	last := len(all) - 1
+	var ggp *types.Header
+	if last >= 1 {
+		if last >= 2 {
+			ggp = all[last-2]
+		}
+		hdr = child(r, cfg, all[last], all[last-1], 100)
+		for i := 0; i < n; i++ {
+			us = append(us, child(r, cfg, all[last-1], ggp, []int64{1, 50, 239, 400, 7}[i%5]))
+		}
+	}
+	return
+}
+
+// uncleCounts: for every configuration with HF5 (and HF8 / HF9, where the uncle hash version changes), blocks at
+// fork-2 .. fork+2 carrying 0, 1, 2 and 3 otherwise valid uncles, through VerifyUncles; oracle: the block's own height
+// decides between the limits 2 and 1.
+func (e *env) uncleCounts() {
+	c := e.c
+	now := time.Now().Unix()
+	for _, nc := range allConfigs(c.Rng) {
+		cfg := nc.cfg
+		done := map[int64]bool{}
+		for _, f := range []int{5, 8, 9} {
+			if cfg.HF[f] == nil {
+				continue
+			}
+			for d := int64(-2); d <= 2; d++ {
+				height := cfg.HF[f].Int64() + d
+				if height < 2 || done[height] {
+					continue // below height 2 no header can be a valid uncle
+				}
+				done[height] = true
+				for n := 0; n <= 3; n++ {
+					if f != 5 && n != 1 && n != 2 {
+						continue
+					}
+					all, blocks, hdr, us := e.treeAt(c.Rng, cfg, height, n, now)
+					e.checkUncles(fmt.Sprintf("count/hf%d%+d/uncles=%d", f, d, n), cfg, all, blocks, hdr, us, false)
+				}
+				// the hash of an uncle is taken under the version of the UNCLE's height: across a version-changing fork an
+				// ancestor offered as uncle, and an uncle already included by the parent, must still be recognised
+				if d >= 0 && d <= 1 && height >= 3 {
+					all, blocks, hdr, _ := e.treeAt(c.Rng, cfg, height, 0, now)
+					last := len(all) - 1
+					e.checkUncles(fmt.Sprintf("across/hf%d%+d/grandparent-as-uncle", f, d), cfg, all, blocks, hdr, []*types.Header{types.CopyHeader(all[last-1])}, false)
+					var ggp *types.Header
+					if last >= 3 {
+						ggp = all[last-3]
+					}
+					u := child(c.Rng, cfg, all[last-2], ggp, 33) // sibling of the grandparent, included by the parent block
+					u.Version = cfg.GetBlockVersion(u.Number)
+					blocks[last] = types.NewBlockWithHeader(all[last]).WithBody(nil, []*types.Header{u})
+					e.checkUncles(fmt.Sprintf("across/hf%d%+d/already-included", f, d), cfg, all, blocks, hdr, []*types.Header{types.CopyHeader(u)}, false)
+				}
+			}
+		}
+	}
+}
+
+// insertChainUncles: the same question through the whole import path: core.GenerateChain builds a real chain on a
+// schedule whose HF5 is low, the block at fork-2 .. fork+2 includes 0..3 real uncles (re-mined copies of its parent),
+// and a fresh core.BlockChain imports it with InsertChain (ValidateBody -> VerifyUncles).
+func (e *env) insertChainUncles() {
+	c := e.c
+	type sched struct {
+		name string
+		cfg  *params.ChainConfig
+	}
+	scheds := []sched{{"test", params.TestChainConfig}, {"hf5@3", customCfg(4242, map[int]int64{1: 1, 2: 2, 5: 3, 7: 0})}, {"hf5@6-sparse", customCfg(4243, map[int]int64{2: 0, 5: 6, 7: 0})}}
+	for _, sc := range scheds {
+		cfg := sc.cfg
+		f := cfg.HF[5].Int64()
+		for d := int64(-2); d <= 2; d++ {
+			height := f + d
+			if height < 2 {
+				continue
+			}
+			for n := 0; n <= 3; n++ {
+				if !c.Thorough() && (d == -2 || d == 2) && (n == 0 || n == 3) {
+					continue
+				}
+				db := aquadb.NewMemDatabase()
+				gspec := &core.Genesis{Config: cfg, Difficulty: big.NewInt(46039386)}
+				genesis := gspec.MustCommit(db)
+				var verdict string
+				pan, pv := vh.CatchPanic(func() {
+					chain, _ := core.GenerateChain(context.Background(), cfg, genesis, aquahash.NewFaker(), db, int(height), func(i int, gen *core.BlockGen) {
+						if int64(i) == height-1 {
+							for k := 0; k < n; k++ {
+								u := gen.PrevBlock(i - 1).Header() // the parent, re-mined: a sibling of it
+								u.Extra = []byte(fmt.Sprintf("uncle-%d", k))
+								gen.AddUncle(u)
+							}
+						}
+					})
+					db2 := aquadb.NewMemDatabase()
+					gspec.MustCommit(db2)
+					bc, err := core.NewBlockChain(context.Background(), db2, nil, cfg, aquahash.NewFaker(), vm.Config{})
+					if err != nil {
+						verdict = "setup " + err.Error()
+						return
+					}
+					defer bc.Stop()
+					if idx, err := bc.InsertChain(chain); err != nil {
+						verdict = fmt.Sprintf("rejected at #%d: %s", chain[idx].NumberU64(), classify(err))
+					} else {
+						verdict = "ok"
+					}
+				})
+				if pan {
+					verdict = fmt.Sprintf("panic %v", pv)
+				}
+				max := 2
+				if active(cfg, 5, big.NewInt(height)) {
+					max = 1
+				}
+				want := "ok"
+				if n > max {
+					want = fmt.Sprintf("rejected at #%d: err too-many-uncles", height)
+				}
+				key := ""
+				if verdict == "ok" && n > 0 {
+					key = fmt.Sprintf("insert/%s/%d/%d", sc.name, height, n)
+				}
+				c.Eval(fmt.Sprintf("insertchain-uncles/%s/hf5%+d/uncles=%d", sc.name, d, n), key)
+				c.Count("insertchain-verdict/" + strings.SplitN(verdict, ":", 2)[0])
+				if verdict != want {
+					c.Violate(fmt.Sprintf("insertchain-uncle-count/%s/height=%d/uncles=%d/%s", cfgTok(cfg), height, n, verdict),
+						"InsertChain of a generated chain whose block at this height carries this many real (valid, recent, distinct) uncles: the verdict differs from the rule (at most 2 uncles before HF5, at most 1 from the HF5 block on)",
+						map[string]string{"config": cfgTok(cfg), "height": fmt.Sprint(height), "uncles": fmt.Sprint(n), "verdict": verdict, "expected": want})
+				}
+			}
+		}
+	}
+}
+
 // ---------------------------------------------------------------- 1. CalcDifficulty lattice
 
 // monotone: the defined forks are scheduled in increasing order of their index
@@ -642,7 +842,7 @@ func (e *env) difficultyLattice() {
 				diffs = append(diffs, big.NewInt(m-1), big.NewInt(m), big.NewInt(m+1), big.NewInt(m+m/16), big.NewInt(m+m/1024+1))
 			}
 			deltas := []int64{1, 2, 9, 10, 11, 19, 20, 179, 180, 181, 239, 240, 241, 989, 990, 991, 1000, 1001, 10000, 0, -5}
-			nd := c.Scale(10, len(diffs))
+			nd := c.Scale(7, len(diffs))
 			for k := 0; k < nd; k++ {
 				pd := diffs[c.Rng.Intn(len(diffs))]
 				if c.Thorough() {
@@ -1350,7 +1550,10 @@ func (e *env) checkUncles(kind string, cfg *params.ChainConfig, all []*types.Hea
 		blk = types.NewBlockWithHeader(h0).WithBody(nil, us)
 	}
 	bl := []*types.Block{}
-	for k := len(all) - 1; k >= 1; k-- {
+	for k := len(all) - 1; k >= 0; k-- {
+		if blocks[k] == nil {
+			break
+		}
 		ch.addBlock(blocks[k])
 		bl = append(bl, blocks[k])
 	}
@@ -1382,6 +1585,9 @@ func (e *env) checkUncles(kind string, cfg *params.ChainConfig, all []*types.Hea
 	}
 	c.Eval("uncles/"+kind, key)
 	c.Count("uncles-verdict/" + obs)
+	if strings.HasPrefix(kind, "count/") {
+		c.Count("uncle-count-verdict/" + kind[strings.LastIndex(kind, "/")+1:] + "/" + obs)
+	}
 	c.Correspond("VerifyUncles~verify_uncles", cas, obs, e.m.Ask(cas))
 	// direct oracle: the uncle rules of the property statement, evaluated independently
 	v := e.unclesOK(cfg, now, all, blocks, hdr, us)
@@ -1402,6 +1608,12 @@ func (e *env) checkUncles(kind string, cfg *params.ChainConfig, all []*types.Hea
 				c.Violate("uncles-historic-whitelist-on-any-chain", "below block ~15008 an uncle that is not recent but whose ParentHash equals a hard-coded mainnet hash (with the matching number) makes VerifyUncles return nil at once, on every chain configuration: it and the remaining uncles are not validated", rep)
 				return
 			}
+		}
+		if v.rule == "count" || obs == "err too-many-uncles" {
+			rep["config"], rep["height"], rep["uncles"], rep["verdict"] = cfgTok(cfg), hdr.Number.String(), fmt.Sprint(len(us)), obs
+			rep["rule"] = "at most 2 uncles before HF5, at most 1 from the HF5 block on (the block's own height decides)"
+			c.Violate(fmt.Sprintf("uncle-count/%s/height=%s/uncles=%d/%s", cfgTok(cfg), hdr.Number, len(us), obs), "VerifyUncles applies the wrong uncle limit for the block's height", rep)
+			return
 		}
 		c.Violate("uncle-rules/"+cas, "verdict of VerifyUncles differs from the uncle rules of the property statement", rep)
 	}
@@ -1434,7 +1646,7 @@ func (e *env) unclesOK(cfg *params.ChainConfig, now int64, all []*types.Header, 
 	seen := map[common.Hash]bool{hdr.Hash(): true}
 	for g := 1; g <= 7; g++ {
 		k := len(all) - g
-		if k < 1 || blocks[k] == nil {
+		if k < 0 || blocks[k] == nil {
 			break // all[0] has no block body in the fake chain: the ancestor walk stops before it
 		}
 		anc[all[k].Hash()] = k
@@ -1505,6 +1717,9 @@ func main() {
 	}
 	e := &env{c: c, m: m, eng: aquahash.NewFaker()}
 	e.directed()
+	e.forkEdges()
+	e.uncleCounts()
+	e.insertChainUncles()
 	e.versions()
 	e.difficultyLattice()
 	e.headerRules()
